@@ -142,6 +142,7 @@ structure Acc where
   kf : Option String := none
   kfi : List Nat := []
   nt : Nat := 0
+  snap : Option S := none
 
 def doQuery (a : Acc) (q : Json) : R Acc := do
   let s := a.s
@@ -395,7 +396,22 @@ def doOp (a : Acc) (idx : Nat) (op : Json) : R Acc := do
     | none => return a
   | "gc" => return { a with s := { s with db := gc s.db } }
   | "reopen" => return a
-  | "q" => let _ := idx; doQuery a op
+  | "backup" =>
+    if !okRc then return a
+    -- a completed backup run captures the state at its start
+    return { a with snap := some s }
+  | "q" =>
+    let _ := idx
+    if getStrD op "on" "" == "restore" then
+      match a.snap with
+      | none =>
+        let e := Json.mkObj [("err", Json.str "nobackup")]
+        return { a with outM := a.outM.push e, outS := a.outS.push e }
+      | some sn =>
+        -- the restored hub answers like the source hub did when the last backup run started
+        let r ← doQuery { a with s := { sn with times := s.times } } op
+        return { r with s := a.s }
+    else doQuery a op
   | _ => throw s!"bad op {kind}"
 
 def hist (inp : Json) : R Res := do
